@@ -1125,7 +1125,21 @@ func (e *executor) executeGroupBy(ctx context.Context, index string, c *pql.Call
 			return nil, errors.Wrap(err, "getting column")
 		}
 		if hasLimit || hasCol { // we need to perform this query cluster-wide ahead of executeGroupByShard
-			childRows[i], err = e.executeRows(ctx, index, child, shards, opt)
+			rowsShards, rowsOpt := shards, opt
+			if opt.Remote {
+				// This node only has its own shards here, but every node has
+				// to group by the same rows: evaluate the child over the
+				// whole index.
+				idx := e.Holder.Index(index)
+				if idx == nil {
+					return nil, ErrIndexNotFound
+				}
+				rowsShards = idx.AvailableShards().Slice()
+				rowsOpt = &execOptions{}
+				*rowsOpt = *opt
+				rowsOpt.Remote = false
+			}
+			childRows[i], err = e.executeRows(ctx, index, child, rowsShards, rowsOpt)
 			if err != nil {
 				return nil, errors.Wrap(err, "getting rows for ")
 			}
